@@ -452,7 +452,11 @@ def result_blocks(body, vname):
     return [b for b, i, s in body.stmts() if s['k'] == 'assign' and s['place']['l'] == 0 and s['rv']['k'] == 'agg' and s['rv'].get('path') == 'core::result::Result' and s['rv']['vname'] == vname]
 
 
-@rule('G5i', props=['C11', 'C06', 'C01', 'C16'], floor=2, configs=('all',))
+def is_byte_any(t):
+    return pathsem.mentions(t, lambda u: isinstance(u, tuple) and u[0] == 'call' and u[1].rsplit('::', 1)[-1] in ('get_unchecked', 'get_unchecked_mut', 'index', 'last', 'get', 'first') and ('core::slice' in u[1] or u[1].startswith('alloc::vec')))
+
+
+@rule('G5i', props=['C11', 'C06', 'C01', 'C16', 'C13'], floor=2, configs=('all',))
 def g5i_identifier_padding(prog):
     """archetype::Identifier deserialisation: after reading (LEN+7)/8 bytes, the visitor returns Err exactly
     when a padding bit of the last byte is set, i.e. LEN % 8 != 0 and (last_byte >> (LEN % 8)) != 0,
@@ -542,6 +546,25 @@ def g5i_identifier_padding(prog):
             want_err = (n % 8 != 0) and ((v >> (n % 8)) != 0)
             if verdicts != {'Err' if want_err else 'Ok'}:
                 bad.append((n, v, 'Err' in verdicts, 'Ok' in verdicts))
+    # the empty registry: no byte exists, so none may be read without a bounds check, and the verdict is Ok
+    E0 = pathsem.analyse(prog, f, consts={'LEN': 0})
+    if E0.truncated:
+        r.viol('G5i', 'not-analysable', f.loc(), 'path enumeration cut off for LEN=0')
+        return r
+    for p in E0.paths:
+        if p.ended not in ('return', 'panic', 'diverge', 'cutoff'):
+            continue
+        nx = [(a_, v) for a_, v in p.conds if isinstance(a_, tuple) and a_[0] == 'next']
+        if any(v == 1 for a_, v in nx):
+            continue          # 0..0 yields nothing
+        raw = p.calls(lambda e: e['name'] in ('get_unchecked', 'get_unchecked_mut', 'index', 'index_mut', 'unwrap', 'expect', 'unwrap_unchecked') and
+                      any(pathsem.mentions(a_, lambda t: isinstance(t, tuple) and t[0] == 'call' and t[1].endswith(('with_capacity', 'Vec::<T>::new'))) or is_byte_any(a_) for a_ in list(e['args']) + list(e['vals'])))
+        if raw:
+            r.viol('G5i', 'reads-byte-of-empty', f.loc(raw[0]['ln']), 'for the empty registry (LEN=0) the validator still reads the "last" byte of an empty buffer (index (0+7)/8-1 underflows): out-of-bounds read or panic on valid input')
+            break
+        if p.ended == 'return' and isinstance(p.ret, tuple) and p.ret[0] == 'agg' and p.ret[2] == 'Err':
+            r.viol('G5i', 'wrong-verdict', f.loc(), 'for the empty registry (LEN=0) the empty byte list is rejected')
+            break
     r.inst('%s: %d verdict paths over LEN=1..24' % (f.path[:60], npaths))
     r.inst('path conditions evaluated for %d (LEN, last byte) pairs' % total)
     if idx_bad:
